@@ -1,6 +1,6 @@
 PROPERTY = "C04"
 LEVEL = "proof"
-LEAN_MODULES = ["CifModel.Props.C04", "CifModel.Model.StoreSchema", "CifModel.Model.StoreContract"]
+LEAN_MODULES = ["CifModel.Props.C04", "CifModel.Model.StoreSchema", "CifModel.Model.StoreContract", "CifModel.Props.ReviewC04"]
 REQUIRED = ["CifModel.C04_inv_init", "CifModel.C04_inv_sql", "CifModel.C04_inv_step", "CifModel.C04_inv_reachable",
             "CifModel.C04_inv_gives_loop_keys", "CifModel.names_returned_as_created", "CifModel.set_value_all_packets_or_new_scalar",
             "CifModel.remove_last_item_removes_loop", "CifModel.scalar_category_cannot_be_given",
@@ -8,7 +8,7 @@ REQUIRED = ["CifModel.C04_inv_init", "CifModel.C04_inv_sql", "CifModel.C04_inv_s
             "CifModel.names_returned_as_created_items", "CifModel.set_value_new_item_goes_to_scalar", "CifModel.C04_refines_get_block",
             "CifModel.C04_refines_create_block", "CifModel.C04_refines_all_blocks", "CifModel.C04_refines_get_frame", "CifModel.C04_refines_create_loop", "CifModel.C04_refines_add_packet", "CifModel.C04_add_packet_total", "CifModel.C04_refines_get_value", "CifModel.C04_refines_set_value", "CifModel.C04_refines_remove_item", "CifModel.C04_refines_destroy_loop", "CifModel.C04_refines_set_category", "CifModel.C04_refines_set_value_new", "CifModel.C04_refines_add_item", "CifModel.C04_refines_prune", "CifModel.C04_get_value_column", "CifModel.C04_add_packet_is_spec_packet",
             "CifModel.C04_cex_F30_pinned", "CifModel.C04_cex_F34_pinned",
-            "CifModel.C04_wok_init", "CifModel.C04_wok_step", "CifModel.C04_wok_hist", "CifModel.C04_packets_total", "CifModel.C04_rows_below", "CifModel.C04_iterator_tied", "CifModel.C04_quiet", "CifModel.C04_add_packet_in_contract", "CifModel.C04_set_category_in_contract", "CifModel.C04_get_value_in_wok", "CifModel.C04_remove_item_in_wok", "CifModel.C04_refines", "CifModel.C04_refines_hist",
+            "CifModel.C04_wok_init", "CifModel.C04_wok_step", "CifModel.C04_wok_hist", "CifModel.C04_packets_total", "CifModel.C04_rows_below", "CifModel.C04_iterator_tied", "CifModel.C04_quiet", "CifModel.C04_add_packet_in_contract", "CifModel.C04_set_category_in_contract", "CifModel.C04_get_value_in_wok", "CifModel.C04_remove_item_in_wok", "CifModel.C04_refines", "CifModel.C04_refines_hist", "CifModel.C04_second_get_packets_refused", "CifModel.remove_last_item_sql",
             "CifModel.C04_code_set_category", "CifModel.C04_code_add_packet", "CifModel.C04_code_remove_item",
             "CifModel.C04_abs_fuel_suffices", "CifModel.C04_refines_create_frame", "CifModel.C04_create_frame_elsewhere", "CifModel.C04_refines_destroy_container",
             "CifModel.Store.schema_tables_link", "CifModel.Store.schema_triggers_link", "CifModel.Store.schema_sql_link",
@@ -31,20 +31,32 @@ ASSUMPTIONS = [
     "the store's enumeration orders are not fixed by any property: observations are canonical (sorted) dumps",
 ]
 PARTIAL = [
-    "C04_refines is proved op by op, not as one specStep over whole histories: get_block, create_block, get_all_blocks, get_frame commute with abs and "
-    "agree in their results; in container-local form (absLoops = the loop list abs shows for a container; every other loop of the CIF unchanged): "
-    "create_loop (no extra hypothesis any more: loop numbers below next_loop_num is part of Inv), add_packet (hypothesis RowsBelow: not an "
-    "unconditional invariant of the model — see notes — but evaluated by the model driver on every state of every generated history), set_value of an "
-    "existing item, set_value of a new item (add_item count + exactly one new packet when the scalar loop had none), add_item, set_category, prune, "
-    "loop_destroy / remove_item of the last item (no extra hypothesis), remove_item with items left and the query get_value (under completeness of "
-    "the packets — since fix e266ec6 every packet add_packet makes is total: C04_add_packet_total; the pinned behaviour: C04_cex_F30_pinned). Not proved: create_frame, destroy of blocks/frames (need fuel-independence of absContainer), "
-    "agreement of the FAILURE codes with the Spec functions, one specStep over whole histories",
-    "set_value_all_packets_or_new_scalar: the new-scalar half is proved only as 'goes through add_scalar' (set_value_new_item_goes_to_scalar)",
+    "Headline: C04_refines / C04_refines_hist — for every op of an in-contract history (inContract: valid handles, no other work on a CIF while "
+    "an iterator is open on it) started in a world satisfying WOk (C04_wok_init / C04_wok_step: Inv, PacketsTotal, RowsBelowAll, ScalarCount, "
+    "iterators tied, one iterator per CIF, autocommit outside iterators), the API FUNCTION as `step` runs it does to the documented model with "
+    "object identities (absW, Spec/StoreSpec) exactly what specStep says and returns the same code — for 24 of the 31 ops (Op.covered). "
+    "NOT covered by specStep: set_value (only its Db-level pieces: C04_refines_set_value = SET_ALL_VALUES_SQL on an existing item, "
+    "C04_refines_set_value_new = the add_scalar composition body by body) and the six iterator calls (C06 states them on the store model)",
+    "the theorems named C04_refines_<op> / C04_code_<op> are statements about single SQL statements or the transaction BODIES of the functions "
+    "(addPacketBody, createLoopBody, Db.setAllValues, …), NOT about the API functions: they are the lemmas C04_refines is composed from and are "
+    "superseded by it for the covered ops; remove_last_item_removes_loop is now about cif_container_remove_item itself "
+    "(the SQL-level fact is remove_last_item_sql)",
+    "the contract is stricter than cif.h: any non-iterator call on a CIF with an open iterator is out of contract (cif.h only makes access "
+    "to the iterated loop undefined and other modifications 'sensitive to the iterator'), except a further get_packets, which is in contract and "
+    "refused (C04_second_get_packets_refused); handles are valid by STATE (their row exists, cached category current) — the two histories in "
+    "Props/ReviewC04.lean and notes/agents/gF.md that break RowsBelow / PacketsTotal are out of contract at their first op inside the iterator",
+    "the tree-shaped documented model (Spec/DataModel `Cif`, `abs`) is a projection of the identity model; only get_block, create_block, "
+    "get_all_blocks, get_frame, create_frame, destroy_container are stated against it directly (C04_refines_get_block … C04_refines_destroy_container)",
+    "enumeration ORDER of get_all_blocks / get_all_frames / get_all_loops / get_names: specStep fixes it (table order = creation order), "
+    "but the correspondence run compares canonical (sorted) dumps, so order is a model statement only",
+    "item-name normalisation is a parameter (C09): the identity model identifies items by the normalised key the caller passes; "
+    "the norm-based statements (C04_code_*, C04_add_packet_is_spec_packet) assume names stored normalised (ItemsNormOK)",
+    "'interleaved with parsing' (the property text) is carried by nothing here: parsing drives the same API functions (C03/C12's subject)",
 ]
 LEVEL_TEXT = ("Proof (partial where stated): an executable relational model of the SQLite-backed store (every function of cif.c/container.c/loop.c/"
               "pktitr.c as the C's sequence of SQL statements and transaction macros) with a machine-checked invariant over ALL API histories "
               "by induction over the op list; schema facts re-extracted from the sources on every run and re-checked by kernel `decide`; "
               "model and real library compared on ~1500 (quick) / 12000 (thorough) random histories with a dump after every op.")
-LEVEL_NOTE = ("Refinement to the documented data model is proved for blocks/frames, proved op by op for loops (see PARTIAL); both findings of this property (F30, F34) are repaired in /repo. Trusted: Lean kernel, the schema translator, SQLite's enforcement of the schema, "
+LEVEL_NOTE = ("Refinement to the documented data model: one theorem over in-contract histories for 24 of 31 ops (see PARTIAL); both findings of this property (F30, F34) are repaired in /repo. Trusted: Lean kernel, the schema translator, SQLite's enforcement of the schema, "
               "the executor/generator/oracle.")
 TECHNIQUE = "Lean 4 proof (invariant by induction over API histories) about an executable relational model tied to the sources by translated schema facts and differential execution"
